@@ -37,14 +37,28 @@ UNITS = [
       loop_contracts={"secp256k1_schnorrsig_aggverify": {"for (i = 0; i < n; ++i)": {
           "assigns": "i, rhs, hash, g_illegal, g_error, verif_c17_whit, verif_c17_bad, c17_fin_hit, __CPROVER_object_whole(c17_dig), c17_xo_hit, c17_xo_rej, c17_xo_anyrej, c17_ch_hit, c17_e, "
                      "c17_em_e_hit, c17_em_z_hit, c17_eP, c17_zT, c17_zT_kind, c17_T_hit, c17_T, c17_cmp_hit, c17_cmp_inf, c17_acc_z, c17_acc_plain",
-          "invariants": "i <= n && hash.bytes == 64 + 96 * (unsigned long)i && verif_c17_bad == 0 && c17_xo_rej == 0 && c17_xo_anyrej == 0 && c17_cmp_hit == 0 && "
+          "invariants": "i <= n && g_illegal == 0 && g_error == 0 && hash.bytes == 64 + 96 * (unsigned long)i && verif_c17_bad == 0 && c17_xo_rej == 0 && c17_xo_anyrej == 0 && c17_cmp_hit == 0 && "
                         "((verif_c17_wpos >= 64 && verif_c17_wpos < 64 + 96 * (unsigned long)i) ==> verif_c17_whit != 0) && "
                         "(verif_c17_gk < i ==> (c17_r_ok != 0 && c17_xo_hit != 0 && c17_ch_hit != 0 && c17_fin_hit != 0 && "
                         "(c17_pk_canon != 0 ==> (c17_em_e_hit != 0 && c17_T_hit != 0 && (verif_c17_gk != 0 ? (c17_em_z_hit != 0 && c17_acc_z != 0) : c17_acc_plain != 0)))))",
           "decreases": "n - i"}}},
-      unwind=66, timeout=2400, tier="thorough", min_obl=100, replay=False, slice_formula=True, object_bits=10,   # MiniSat: CaDiCaL exhausts 33 GB on this instance, MiniSat needs 1 GB / 12 s
+      unwind=66, timeout=3600, tier="thorough", min_obl=2400, replay=False, slice_formula=True, object_bits=10,   # MiniSat: CaDiCaL exhausts 33 GB on this instance, MiniSat needs 1 GB / 12 s
       closed_by="loop contract over the n signatures (engine-supplied, no /repo edit): invariant = stream length, no wrong byte / rejected lift so far, and 'watched index < i => its hit flags are set'",
       note="n symbolic <= 2^20, exact-size objects; the invariant is specific to the code's form (T_0 enters the sum unmultiplied)"),
+    U("C17.inc_aggregate_loop", ["C17"], "harness/C17/inc_aggregate.c", "h_inc_aggregate", defs=["C17_LOOP"],
+      replace=HASH + ["secp256k1_scalar_mul"], assumed=["secp256k1_scalar_mul"],
+      functions=["secp256k1_schnorrsig_inc_aggregate", "secp256k1_schnorrsig_aggregate"],
+      loop_contracts={"secp256k1_schnorrsig_inc_aggregate": {
+          "for (i = 0; i < n_before; ++i)": {"assigns": "i, hash, g_illegal, g_error, verif_c17_whit, verif_c17_bad",
+              "invariants": "i <= n_before && g_illegal == 0 && g_error == 0 && hash.bytes == 64 + 96 * (unsigned long)i && verif_c17_bad == 0 && ((verif_c17_wpos >= 64 && verif_c17_wpos < 64 + 96 * (unsigned long)i) ==> verif_c17_whit != 0)", "decreases": "n_before - i"},
+          7: {"assigns": "i, hash, s, g_illegal, g_error, verif_c17_whit, verif_c17_bad, c17_fin_hit, __CPROVER_object_whole(c17_dig), c17_mul_hit, c17_mul_one_hit",
+              "invariants": "n_before <= i && i <= n && g_illegal == 0 && g_error == 0 && hash.bytes == 64 + 96 * (unsigned long)i && verif_c17_bad == 0 && ((verif_c17_wpos >= 64 && verif_c17_wpos < 64 + 96 * (unsigned long)i) ==> verif_c17_whit != 0) && "
+                            "((verif_c17_gk < i - n_before) ==> (c17_fin_hit != 0 && ((n_before != 0 || verif_c17_gk != 0) ==> c17_mul_hit != 0)))", "decreases": "n - i"},
+          8: {"assigns": "i, __CPROVER_object_whole(aggsig)",
+              "invariants": "n_before <= i && i <= n && (verif_c17_gb < 32 * i ==> aggsig[verif_c17_gb] == verif_c17_gb_exp)", "decreases": "n - i"}}},
+      unwind=66, timeout=3600, tier="thorough", min_obl=2400, replay=False, slice_formula=True, object_bits=10,
+      closed_by="loop contracts on the three loops (engine-supplied, no /repo edit; loops 7/8 = the two 'for (i = n_before; i < n; ++i)' loops in source order)",
+      note="n_before, n_new symbolic <= 2^20 each, exact-size objects; MiniSat"),
 ]
 
 # NOT LISTED (undecided, kept as a record; written BEFORE the audit rework - the invariants name ghost variables of the
